@@ -157,6 +157,10 @@ def gen_cases(rng, tier):
             extra.append(["CopyDecay", "MyCopy", srcm])
             if rng.random() < 0.4:
                 extra.append(["CopyDecay", "MyCopy2", srcm])           # two copies of one source
+            if len(mothers) >= 2 and rng.random() < 0.5:
+                # copies of several sources, stated in any order relative to the order of their sources
+                for k, om in enumerate(rng.sample(mothers, min(len(mothers), rng.randint(2, 3)))):
+                    extra.append(["CopyDecay", f"MyCopyOf{k}", om])
             if rng.random() < 0.4:
                 extra.append(["ChargeConj", "MyCopy", "MyantiCopy"])   # a copy as the source of a CDecay
                 extra.append(["CDecay", "MyantiCopy"])
